@@ -9,7 +9,8 @@ THEOREMS = ["Rsp.Tie.C17.lockExprs_classified", "Rsp.Props.C17.no_waits_for_cycl
             "Rsp.Props.C17.freerq_keeps", "Rsp.Props.C17.freerq_last", "Rsp.Props.C17.freerq_other", "Rsp.Props.C17.freerq_absent",
             "Rsp.Props.C17.freerq_inv", "Rsp.Props.C17.newrqref_inv", "Rsp.Props.C17.cacheFill_inv", "Rsp.Props.C17.cacheClear_inv", "Rsp.Props.C17.qPush_inv",
             "Rsp.Props.C17.slotFill_inv", "Rsp.Props.C17.slotClear_inv", "Rsp.Props.C17.freerqoutdata_inv", "Rsp.Props.C17.removeclientrq_inv",
-            "Rsp.Props.C17.popReplies_inv", "Rsp.Props.C17.removeclient_inv", "Rsp.Props.C17.removeclient_clears", "Rsp.Props.C17.sendreply_inv"]
+            "Rsp.Props.C17.popReplies_inv", "Rsp.Props.C17.removeclient_inv", "Rsp.Props.C17.removeclient_clears", "Rsp.Props.C17.sendreply_inv",
+            "Rsp.Props.C17.rmclientrq_inv", "Rsp.Props.C17.internalSendrq_inv", "Rsp.Props.C17.scanSlots_inv", "Rsp.Props.C17.sendrqPlace_inv", "Rsp.Props.C17.sendrq_inv"]
 RULE = ("histories over {request, retransmission, identifier reuse, reply, bogus reply, writer timer step, clock advance, connection reset, client disconnect} on 2-4 "
         "associations and 1-3 servers, closed by disconnecting every client and running all timers out; after EVERY operation the real objects' reference counts are compared "
         "with the number of slots/cache entries/queue entries pointing at them; the mutex pairs (held, acquired) exhibited by the real code are checked against the ranked "
@@ -20,7 +21,7 @@ ASSUMPTIONS = ["operations are executed one at a time (the real clientwr threads
 LEVEL_TEXT = ("Lean 4 theorems: (i) under the ranked lock hierarchy no waits-for cycle can exist, for any number of threads and mutexes (no_waits_for_cycle); (ii) the reference-balance "
               "invariant 'count = places pointing at the request + references held by running code; nothing points at a released request' is preserved by every reference-moving "
               "primitive (freerq_inv, newrqref_inv, cacheFill/Clear_inv, qPush_inv, slotFill/Clear_inv) and by the release paths built from them: slot release "
-              "(freerqoutdata_inv), dropping a cache entry incl. cancelling the in-flight copy (removeclientrq_inv), queueing a reply (sendreply_inv), handing replies to the transport "
+              "(freerqoutdata_inv), dropping a cache entry incl. cancelling the in-flight copy (removeclientrq_inv), queueing a reply (sendreply_inv), queueing a request for a server incl. both identifier scans and the failure exit (sendrq_inv), handing replies to the transport "
               "(popReplies_inv) and client disconnect (removeclient_inv), after which the client's cache and queue are empty (removeclient_clears). PARTIAL: for radsrv/replyh/clientwr as "
               "wholes the invariant is evaluated (not proved) on the model after every operation, and on the real objects after every operation by the monitor.")
 LEVEL_NOTE = ("Trusted: Lean kernel + std axioms, harness (lock recording by call-site expression, request accounting by allocation site), generators. NOT covered: true concurrency "
